@@ -263,7 +263,7 @@ SAFE_BUILTINS = {
     "tuple": tuple, "range": range, "min": min, "max": max, "bool": bool, "int": int, "float": float, "sum": sum,
     "reversed": reversed, "filter": filter, "frozenset": frozenset, "abs": abs, "type": type, "object": object,
     "True": True, "False": False, "None": None, "unicode": str, "getattr": getattr, "hasattr": hasattr, "setattr": setattr, "super": super,
-    "staticmethod": staticmethod, "classmethod": classmethod, "property": property, "callable": callable, "id": id,
+    "staticmethod": staticmethod, "classmethod": classmethod, "property": property, "callable": callable, "id": id, "vars": vars,
     "DeprecationWarning": DeprecationWarning, "UserWarning": UserWarning, "Warning": Warning, "NotImplementedError": NotImplementedError, "OverflowError": OverflowError,
     "ZeroDivisionError": ZeroDivisionError, "RuntimeError": RuntimeError, "OSError": OSError, "IOError": IOError, "ImportError": ImportError,
     "KeyError": KeyError, "TypeError": TypeError, "ValueError": ValueError, "IndexError": IndexError, "Exception": Exception,
@@ -461,6 +461,7 @@ class Ev:
         self.defaults = {}
         self.modvals = {}
         self.clsvals = {}
+        self.decorated = {}
         self.builtins = {}          # extra builtins for a scenario (a fake `open`)
         self.ext = {}               # replacements for library names, by dotted name ("sys": stub)
         self.real_errors = real_errors      # True: ValidationError(...) instantiates the package's own class
@@ -988,6 +989,13 @@ class Ev:
 
     def resolved(self, r, label=""):
         if isinstance(r, Func):
+            memo = [d for d in r.decorators if norm(d.func if isinstance(d, ast.Call) else d).split(".")[-1] in ("lru_cache", "cache")]
+            if memo:
+                # a memoising decorator is part of the function's behaviour (answers may be stale): one wrapper per interpreter
+                if id(r) not in self.decorated:
+                    import functools
+                    self.decorated[id(r)] = functools.lru_cache(maxsize=None)(FuncRef(self, r))
+                return self.decorated[id(r)]
             return FuncRef(self, r)
         if isinstance(r, Cls):
             if r.name in ERR_CLASSES and not self.real_errors:
